@@ -20,20 +20,21 @@ CountLines(lines, k, acc) ==      \* acc = [ins, dir]
 \* pMARS listing conventions: '94: "ORG START" first, OP MOD mode num mode num; '88: no modifiers, "END START" last;
 \* the entry point carries the label START; numbers are signed.
 LineIns(f, legacy) ==          \* f without a leading START
-  IF legacy THEN [ok |-> Len(f) = 5, op |-> f[1], mod |-> "", am |-> f[2], a |-> f[3], bm |-> f[4], b |-> f[5]]
-  ELSE [ok |-> Len(f) = 6, op |-> f[1], mod |-> f[2], am |-> f[3], a |-> f[4], bm |-> f[5], b |-> f[6]]
+  IF Len(f) # (IF legacy THEN 5 ELSE 6) THEN [ok |-> FALSE, op |-> "?", mod |-> "", am |-> "?", a |-> 0, bm |-> "?", b |-> 0]
+  ELSE IF legacy THEN [ok |-> TRUE, op |-> f[1], mod |-> "", am |-> f[2], a |-> f[3], bm |-> f[4], b |-> f[5]]
+  ELSE [ok |-> TRUE, op |-> f[1], mod |-> f[2], am |-> f[3], a |-> f[4], bm |-> f[5], b |-> f[6]]
 ReadListing(lines, legacy, M) ==
   LET n == Len(lines)
       body == IF legacy THEN SubSeq(lines, 1, n - 1) ELSE SubSeq(lines, 2, n)
-      dirOK == IF legacy THEN lines[n] = <<"END", "START">> ELSE lines[1] = <<"ORG", "START">>
-      strip(f) == IF f[1] = "START" THEN Tail(f) ELSE f
-      starts == {k \in 1..Len(body) : body[k][1] = "START"}
+      dirOK == n >= 1 /\ (IF legacy THEN lines[n] = <<"END", "START">> ELSE lines[1] = <<"ORG", "START">>)
+      strip(f) == IF f # << >> /\ f[1] = "START" THEN Tail(f) ELSE f
+      starts == {k \in 1..Len(body) : body[k] # << >> /\ body[k][1] = "START"}
       rd == [k \in 1..Len(body) |-> LineIns(strip(body[k]), legacy)]
       ok == dirOK /\ Cardinality(starts) = 1 /\ \A k \in 1..Len(body) : Len(strip(body[k])) = (IF legacy THEN 5 ELSE 6)
   IN [ok |-> ok,
       code |-> [k \in 1..Len(body) |-> [op |-> rd[k].op, am |-> rd[k].am, bm |-> rd[k].bm,
                                         mod |-> IF legacy THEN Default88(rd[k].op, rd[k].am, rd[k].bm) ELSE rd[k].mod,
-                                        a |-> ModM(rd[k].a, M), b |-> ModM(rd[k].b, M)]],
+                                        a |-> IF rd[k].ok THEN ModM(rd[k].a, M) ELSE 0, b |-> IF rd[k].ok THEN ModM(rd[k].b, M) ELSE 0]],
       start |-> IF Cardinality(starts) = 1 THEN (CHOOSE k \in starts : TRUE) - 1 ELSE -1]
 
 \* ---------------------------------------------------------------- printers (spec side)
